@@ -402,7 +402,7 @@ example : ((runStrict (Handoff.init false [[.callLater, .yieldF]] [[.schedule 0]
 
 example : namesOk [[.sched 1, .yieldF], []] [[.schedule 0], [.callLater]] := by
   refine ⟨?_, ?_⟩
-  · intro p hp t ht; simp at hp; rcases hp with rfl | rfl <;> simp at ht; omega
-  · intro p hp v hv; simp at hp; rcases hp with rfl | rfl <;> simp at hv; omega
+  · intro p hp t ht; simp at hp; rcases hp with rfl | rfl <;> simp at ht; subst ht; decide
+  · intro p hp v hv; simp at hp; rcases hp with rfl | rfl <;> simp at hv; subst hv; decide
 
 end Pox.C07
